@@ -7,6 +7,9 @@ rows = []
 only = sys.argv[1:]
 for d in sorted(glob.glob(os.path.join(VERIF, 'seeded', '*'))):
     name = os.path.basename(d)
+    import re as _re
+    if _re.search(r'-[4-9]$', name):
+        continue      # round 2: meta.json keeps the FIRST-CONTACT result (see DESIGN 11.1); current results: tools/matrix.py
     if only and not any(name.startswith(o) for o in only):
         continue
     meta = json.load(open(os.path.join(d, 'meta.json')))
